@@ -128,6 +128,13 @@ export const REWRITES = {
     const names = new Map(prog.decls.map((d) => [d.name, "Zq" + d.name]));
     return [{ prog: renameDecls(prog, names), hash32: false }];
   },
+  "rename-declarations-reversed-order": (prog) => {
+    // new names whose alphabetical order is the reverse of the old one (the compiler orders members of
+    // unions/intersections of named types by name)
+    const sorted = prog.decls.map((d) => d.name).sort();
+    const names = new Map(sorted.map((n, i) => [n, `R${String(sorted.length - i).padStart(3, "0")}${n}`]));
+    return [{ prog: renameDecls(prog, names), hash32: false }];
+  },
   "swap-declaration-names": (prog) => {
     // exchange the names of two declarations (a permutation of names is meaning-preserving)
     const out = [];
@@ -342,6 +349,22 @@ function extraBases() {
     [["A", Ref("Shape")], ["B", Ref("Colors")], ["C", Ref("Mixed")], ["D", Ref("Holder")], ["E", Tup([Ref("Same1"), Ref("Same2")])], ["F", Ref("OptDisc")], ["G", Ref("TwoDisc")], ["H", ArrT(U(Ref("Shape"), P("null")))]],
     "optimisation triggers",
   );
+  // discriminated unions whose members are intersections of named objects that both declare the discriminator
+  add(
+    [
+      Alias("Base", ObjT([Prop("type", U(L("CRON"), L("EVENT"))), Prop("id", P("string"))])),
+      Alias("OnlyCron", ObjT([Prop("type", L("CRON")), Prop("cron", P("string"))])),
+      Alias("OnlyEvent", ObjT([Prop("type", L("EVENT")), Prop("ev", P("number"), true)])),
+      Alias("CronSrc", I(Ref("Base"), Ref("OnlyCron"))),
+      Alias("EventSrc", I(Ref("OnlyEvent"), Ref("Base"))),
+      Alias("Manual", ObjT([Prop("type", L("MANUAL")), Prop("id", P("string"))])),
+      Alias("W1", U(Ref("CronSrc"), Ref("Manual"))),
+      Alias("W2", U(Ref("CronSrc"), Ref("EventSrc"), Ref("Manual"))),
+      Alias("W3", U(I(Ref("Base"), ObjT([Prop("type", L("CRON")), Prop("x", P("number"))])), Ref("Manual"))),
+    ],
+    [["A", Ref("W1")], ["B", Ref("W2")], ["C", Ref("W3")], ["D", ArrT(Ref("W1"))]],
+    "discriminated unions over intersections of named objects",
+  );
   // generic scope: a global alias and type parameters
   add(
     [Alias("TStr", P("string")), Alias("Inner", ObjT([Prop("v", Ref("TStr"))])), Alias("Outer", ObjT([Prop("o", Param("X")), Prop("i", Ref("Inner"))]), ["X"]), Alias("Deep", ObjT([Prop("d", Ref("Outer", [Param("Y")]))]), ["Y"])],
@@ -353,7 +376,7 @@ function extraBases() {
 
 // {base, variants:[{rewrite, prog, nameMap, hash32}]}; mode "hash": only the rewrites C13 lists
 export async function rewriteVariants({ mode = "all", pairs = false } = {}) {
-  const hashOnly = ["reverse-object-properties", "rename-parsers", "rename-declarations-fresh", "swap-declaration-names", "rename-type-parameters-fresh", "introduce-alias", "alias-whole-parser-type", "inline-alias", "reverse-declarations"];
+  const hashOnly = ["reverse-object-properties", "rename-parsers", "rename-declarations-fresh", "rename-declarations-reversed-order", "swap-declaration-names", "rename-type-parameters-fresh", "introduce-alias", "alias-whole-parser-type", "inline-alias", "reverse-declarations"];
   const hash32Extra = ["reverse-union-members", "reverse-intersection-members"];
   const names = mode === "hash" ? [...hashOnly, ...hash32Extra] : Object.keys(REWRITES);
   const out = [];
